@@ -1,4 +1,367 @@
-"""simulator half of the C07 check (imported by checks/c07.py)"""
+"""simulator half of the C07 check (imported by checks/c07.py): scenario generator, monitors that
+evaluate the property text on harness/c07_sim.c's log, and the model-vs-implementation diffs
+(per-server and IPC traces replayed through `uvdriver accept`, refusal table through `uvdriver wcheck`,
+failing connects through `uvdriver connect`)."""
 from vlib import *
+
+KINDS = ["t4", "t6", "un"]
+
+
+def gen_scenario(rng, flavour=None):
+    fl = flavour or rng.choice(["servers", "servers", "servers", "ipc", "connect", "mixed"])
+    L = []
+    meta = {"drained": set(), "fl": fl}
+    if fl in ("servers", "mixed"):
+        ns = rng.range(1, 3)
+        modes = []
+        for s in range(ns):
+            m = rng.choice(["imm", "defer", "defer", "never"])
+            modes.append(m); L.append(f"server {s} {rng.choice(KINDS)} {m}")
+        cid = 0
+        closed = set()
+        for _ in range(rng.range(3, 14)):
+            r = rng.below(14)
+            s = rng.below(ns)
+            if r < 6:
+                L.append(f"{rng.choice(['raw', 'raw', 'uvc'])} {cid} {s}"); cid += 1
+                if rng.chance(1, 8):
+                    L.append(f"closecli {cid - 1}")
+            elif r < 9:
+                L.append(f"run {rng.range(1, 3)}")
+            elif r < 11:
+                if modes[s] != "imm":
+                    L.append(f"accept {s}" + (" busy" if rng.chance(1, 10) else ""))
+            elif r < 12:
+                L.append("inject " + " ".join(str(rng.choice([24, 23, 11, 103, 0])) for _ in range(rng.range(1, 2))))
+            elif r < 13 and rng.chance(1, 3) and s not in closed:
+                L.append(f"closesrv {s}"); closed.add(s)
+        L.append("run 3")
+        for s in range(ns):
+            if modes[s] == "defer" and s not in closed and rng.chance(3, 4):
+                L.append(f"drain {s}"); meta["drained"].add(s)
+    if fl in ("connect", "mixed"):
+        base = 100
+        for i in range(rng.range(1, 5)):
+            L.append(f"badconnect {base + i} {rng.choice(['tcp', 'pipe', 'long', 'longnt'])}" + (" close" if rng.chance(1, 4) else ""))
+            if rng.chance(1, 2):
+                L.append("run 1")
+        L.append("run 3")
+    if fl == "ipc":
+        k = rng.choice([1, 2, 5, 8, 9, 10, 12, 17, 20, 30])
+        kinds = "".join(rng.choice("tpu") for _ in range(k))
+        L.append(f"ipc {kinds} {rng.choice(['late', 'late', 'imm', '2', '3', '5'])}")
+    if fl in ("connect", "mixed") or rng.chance(1, 6):
+        L.append("wcheck")
+    L.append("end")
+    return L, meta
+
+
+def kv(line):
+    d = {}
+    for t in line.split():
+        if "=" in t:
+            k, v = t.split("=", 1); d[k] = v
+    return d
+
+
+def sim_monitor(prog, meta, out):
+    """property text on the implementation's log; returns (signature, message) or None"""
+    srv_mode, srv_alive, cli_sid, cli_kind = {}, {}, {}, {}
+    self_closed, srv_closed_at = set(), {}
+    for l in prog:
+        w = l.split()
+        if w[0] == "server": srv_mode[int(w[1])] = w[3]
+        if w[0] in ("raw", "uvc"): cli_sid[int(w[1])] = int(w[2]); cli_kind[int(w[1])] = w[0]
+        if w[0] == "closecli": self_closed.add(int(w[1]))
+    if any(o == "bad-op" for o in out):
+        return ("sim-badop", "harness did not understand an op")
+    # --- servers: EAGAIN iff nothing announced-and-unclaimed; announcements/claims counted from the callbacks
+    pend = {}
+    unavailable = set()
+    stuck = set()
+    for o in out:
+        w = o.split()
+        if w[0] == "server" and kv(o)["r"] != "0": unavailable.add(int(w[1]))
+        if w[0] == "conncb":
+            if kv(o)["status"] != "0": return ("conncb-status", f"connection_cb status {o}")
+            pend[int(w[1])] = pend.get(int(w[1]), 0) + 1
+            if pend[int(w[1])] > 1: return ("conncb-while-pending", f"connection announced while another is unclaimed on server {w[1]} (POLLIN not paused)")
+        if w[0] == "accept":
+            s = int(w[1]); r = int(kv(o)["r"]); p = pend.get(s, 0)
+            if p == 0 and r != -11: return ("accept-not-eagain", f"uv_accept with nothing pending returned {r}: {o}")
+            if p > 0 and r == -11: return ("accept-eagain-pending", f"uv_accept returned UV_EAGAIN with a pending connection: {o}")
+            if p > 0: pend[s] = p - 1
+            if p > 0 and r != 0: stuck.add(s)
+        if w[0] == "closesrv": pend[int(w[1])] = 0
+    # --- tokens: every accepted stream carries the token of a distinct client of that server
+    seen = {}
+    for o in out:
+        w = o.split()
+        if w[0] == "acc":
+            d = kv(o); s = int(w[1])
+            if d["token"] in ("none", "eof"):
+                continue        # client closed before writing: judged by the client's fate below
+            t = int(d["token"])
+            if t in seen: return ("token-dup", f"client {t} delivered twice by uv_accept: {o}")
+            if cli_sid.get(t) != s: return ("token-wrong-server", f"stream accepted on server {s} carries the token of client {t} (server {cli_sid.get(t)})")
+            if d.get("extra", "0") != "0": return ("token-extra", f"accepted stream carries extra bytes: {o}")
+            seen[t] = s
+    alive, fired, spare = {}, 0, "1"
+    for o in out:
+        w = o.split()
+        if w[0] == "srv": alive[int(w[1])] = kv(o)["alive"] == "1"
+        if w[0] == "fired=" or o.startswith("fired="): fired = int(kv(o)["fired"]); spare = kv(o)["spare"]
+    if spare != "1":
+        return ("emfile-spare-lost", "loop->emfile_fd not re-opened after the EMFILE trick")
+    for o in out:
+        w = o.split()
+        if w[0] != "cli": continue
+        c = int(w[1]); d = kv(o)
+        if d["kind"] == "bad" or c in self_closed: continue
+        s = cli_sid[c]
+        if s in unavailable: continue
+        connected = (d["kind"] == "raw" and d["ret"] == "0") or (d["kind"] == "uvc" and d["cbs"] == "1" and d["status"] == "0")
+        if not connected: continue
+        claimed = c in seen
+        if claimed and d["peer"] == "closed":
+            return ("claimed-but-closed", f"client {c} was handed to the user by uv_accept but its connection is closed")
+        if not claimed and d["peer"] == "closed" and alive.get(s) and fired == 0 and s not in stuck:
+            return ("connection-dropped", f"client {c} reached live server {s} but was closed without being claimable")
+        if not claimed and d["peer"] != "closed" and alive.get(s) and s not in stuck and \
+                (srv_mode[s] == "imm" or s in meta["drained"]):
+            return ("connection-never-announced", f"client {c} connected to live server {s} ({srv_mode[s]}) but was never announced/claimable")
+    # --- connect requests: exactly one callback iff the submitting call returned 0; status
+    for o in out:
+        w = o.split()
+        if w[0] != "final": continue
+        c = int(w[1]); d = kv(o); ret, cbs, st = int(d["ret"]), int(d["cbs"]), int(d["status"])
+        if ret == 0 and cbs != 1: return ("connect-cb-count", f"connect request {c} accepted but {cbs} callbacks")
+        if ret != 0 and cbs != 0: return ("connect-cb-after-error", f"connect request {c} refused ({ret}) but callback ran")
+        bad = next((l for l in prog if l.startswith(f"badconnect {c} ")), None)
+        if bad:
+            kind = bad.split()[2]; closed = bad.endswith("close")
+            if kind == "longnt":
+                if ret != -22: return ("connect-longnt", f"over-long path with NO_TRUNCATE returned {ret}")
+            elif ret != 0: return ("connect-sync-error", f"{bad}: returned {ret}, error must come through the callback")
+            elif closed and st != -125: return ("connect-cancel-status", f"{bad}: status {st}, expected UV_ECANCELED")
+            elif not closed and st != {"tcp": -111, "pipe": -2, "long": -2}[kind]:
+                return ("connect-status", f"{bad}: status {st}")
+        elif c in cli_sid and cli_sid[c] not in unavailable and ret == 0 and c not in self_closed:
+            if st == 0 and c not in seen and alive.get(cli_sid[c]) and (srv_mode[cli_sid[c]] == "imm" or cli_sid[c] in meta["drained"]) and fired == 0 and cli_sid[c] not in stuck:
+                return ("connect-ok-not-established", f"client {c}: status 0 but the server never got it")
+    if not any(o.startswith("loop-alive=0 close=0") for o in out):
+        return ("loop-not-clean", f"requests/handles left after everything was closed: {out[-1] if out else ''}")
+    # --- IPC
+    sent = [o for o in out if o.startswith("ipcsend")]
+    if sent:
+        kinds = [kv(o)["kind"] for o in sent]
+        if any(kv(o)["r"] != "0" for o in sent): return ("ipc-send-refused", "uv_write2 with a handle on an IPC pipe failed")
+        reads = gots = 0
+        for o in out:
+            w = o.split(); d = kv(o)
+            if w[0] == "ipcread":
+                reads += 1
+                if int(d["pc"]) != reads - gots: return ("ipc-pending-count", f"pending_count {d['pc']} after {reads} received / {gots} claimed")
+                if d["type"] != kinds[gots]: return ("ipc-pending-type", f"pending_type {d['type']}, oldest unclaimed was sent as {kinds[gots]}")
+            if w[0] == "ipcgot":
+                if int(d["pc"]) != reads - gots: return ("ipc-pending-count", f"pending_count {d['pc']} before claim {gots} with {reads} received")
+                if d["r"] != "0" or d["usable"] != "1": return ("ipc-accept-failed", o)
+                if int(d["from"]) != gots: return ("ipc-order", f"claim {gots} yielded the handle sent as #{d['from']}")
+                if d["type"] != kinds[gots]: return ("ipc-type", f"claim {gots}: type {d['type']}, sent {kinds[gots]}")
+                gots += 1
+            if w[0] == "ipcempty" and (d["r"] != "-11" or d["pc"] != "0" or d["type"] != "-"):
+                return ("ipc-empty", o)
+            if w[0] == "ipcdone" and not (int(d["sent"]) == int(d["got"]) == int(d["wcbs"]) == len(kinds)):
+                return ("ipc-count", o)
+            if w[0] in ("ipcwcb", ) or (w[0] == "ipcread" and "err" in d): return ("ipc-error", o)
+        if reads != len(kinds) or gots != len(kinds): return ("ipc-lost", f"sent {len(kinds)} received {reads} claimed {gots}")
+    # --- refusal table
+    for o in out:
+        w = o.split()
+        if w[0] != "wcheck": continue
+        d = kv(o); t, ww = int(d["try_write2"]), int(d["write2"])
+        exp = (-22, -22) if w[1] == "plain" else ((1, 0) if w[2] == "good" else (-9, -9))
+        if t != exp[0]: return ("try-write2-handle-" + w[1] + "-" + w[2], f"uv_try_write2 on {w[1]} pipe with {w[2]} handle returned {t}, expected {exp[0]}")
+        if ww != exp[1]: return ("write2-handle-" + w[1] + "-" + w[2], f"uv_write2 on {w[1]} pipe with {w[2]} handle returned {ww}, expected {exp[1]}")
+    return None
+
+
+def model_diff(ctx, prog, out):
+    """replay the implementation's per-stream traces through the model; returns description of first diff"""
+    # servers
+    modes = {int(l.split()[1]): l.split()[3] for l in prog if l.startswith("server")}
+    traces = {s: [] for s in modes}      # list of (driver line, expected dict or None)
+    n = {s: 0 for s in modes}
+    cur_cb = None
+    lines = list(out)
+    i = 0
+    while i < len(lines):
+        w = lines[i].split()
+        if w[0] == "server" and kv(lines[i])["r"] == "0" and int(w[1]) in traces:
+            traces[int(w[1])].append(("init L 0", None))
+        elif w[0] == "conncb" and int(w[1]) in traces:
+            s = int(w[1]); traces[s].append((f"io ok {n[s]}", None)); n[s] += 1
+            if modes[s] == "imm" and i + 1 < len(lines) and lines[i + 1].startswith(f"accept {s} "):
+                traces[s].append(("accept S 0", kv(lines[i + 1]))); i += 1
+                # pollin inside the callback is printed by the harness before ioend
+            traces[s].append(("ioend", None))
+        elif w[0] == "accept" and int(w[1]) in traces:
+            s = int(w[1]); d = kv(lines[i])
+            busy = d["r"] == "-16"
+            traces[s].append((f"accept {'B -16' if busy else 'S 0'}", d))
+        elif w[0] == "closesrv" and int(w[1]) in traces:
+            traces[int(w[1])].append(("close", None))
+        i += 1
+    for s, tr in traces.items():
+        if not tr or tr[0][0] != "init L 0": continue
+        mo = ctx.driver(["accept"], "\n".join(t[0] for t in tr) + "\n").splitlines()
+        for (cmd, exp), m in zip(tr, mo):
+            if exp is None: continue
+            md = kv(m)
+            if md["r"] != exp["r"] or md["pollin"] != exp["pollin"]:
+                return f"server {s} `{cmd}`: impl r={exp['r']} pollin={exp['pollin']}  model {m}"
+    # IPC
+    sent = [kv(o)["kind"] for o in out if o.startswith("ipcsend")]
+    if sent:
+        tr, k = [("init I 1", None), ("typed", None)], 0
+        for o in out:
+            w = o.split()
+            if w[0] == "ipcread" and "n" in kv(o):
+                tr.append((f"recv - {k}:{sent[k]}", ("after", kv(o)))); k += 1
+            if w[0] == "ipcgot":
+                tr.append((f"accept {'U' if kv(o)['type'] == 'u' else 'S'} 0", ("got", kv(o))))
+            if w[0] == "ipcempty":
+                tr.append(("accept S 0", ("empty", kv(o))))
+        mi = iter(ctx.driver(["accept"], "\n".join(t[0] for t in tr) + "\n").splitlines())
+        prev = None
+        for cmd, exp in tr:
+            if cmd == "typed": continue
+            m = next(mi); md = kv(m)
+            if exp:
+                tag, d = exp
+                if tag == "after" and (md["pc"] != d["pc"] or md["ty"] != d["type"]):
+                    return f"ipc `{cmd}`: impl pc={d['pc']} type={d['type']}  model {m}"
+                if tag == "got" and (prev["pc"] != d["pc"] or prev["ty"] != d["type"] or md.get("got") != d["from"] or md["r"] != d["r"]):
+                    return f"ipc `{cmd}`: impl {d}  model before {prev} after {m}"
+                if tag == "empty" and (md["r"] != d["r"] or md["pc"] != d["pc"]):
+                    return f"ipc empty accept: impl {d} model {m}"
+            prev = md
+    # refusal table
+    wl = [o.split() for o in out if o.startswith("wcheck")]
+    if wl:
+        q = []
+        for w in wl:
+            ipc = "1" if w[1] == "ipc" else "0"; h = "5" if w[2] == "good" else "-1"
+            q += [f"tw2 7 1 1 {ipc} 0 0 {h}", f"w2 7 1 1 {ipc} 0 0 {h}"]
+        mo = ctx.driver(["wcheck"], "\n".join(q) + "\n").splitlines()
+        for j, w in enumerate(wl):
+            d = kv(" ".join(w))
+            for fn, key, m in (("uv_try_write2", "try_write2", mo[2 * j]), ("uv_write2", "write2", mo[2 * j + 1])):
+                r = int(d[key]); impl = f"refuse {r}" if r < 0 else "pass"
+                if impl != m:
+                    return f"{fn} {w[1]} {w[2]}: impl {impl} model {m}"
+    # failing connects
+    for l in prog:
+        w = l.split()
+        if w[0] != "badconnect": continue
+        c = w[1]; closed = len(w) > 3
+        fin = next((kv(o) for o in out if o.startswith(f"final {c} ")), None)
+        if fin is None: continue
+        if w[2] == "tcp": q = ["tcp 0 -115"] + (["close", "destroy"] if closed else ["io -111"])
+        elif w[2] == "longnt": q = ["pipe -22 0 0"]
+        else: q = ["pipe 0 0 -2"] + (["close", "destroy"] if closed else ["io 0"])
+        mo = ctx.driver(["connect"], "\n".join(q) + "\n").splitlines()
+        mret = mo[0].split()[1]; mcbs = [x.split()[2] for x in mo[1:] if x.startswith("cb")]
+        if mret != fin["ret"] or len(mcbs) != int(fin["cbs"]) or (mcbs and mcbs[0] != fin["status"]):
+            return f"`{l}`: impl {fin}  model ret={mret} cbs={mcbs}"
+    return None
+
+
+def run_case(ctx, exe, prog):
+    rc, out, err = ctx.run(exe, text="\n".join(prog) + "\n", timeout=60,
+                           env={"ASAN_OPTIONS": "detect_leaks=1:exitcode=99"})
+    return rc, out.splitlines(), err
+
+
+def shrink(ctx, exe, prog, meta, sig):
+    cur = list(prog); i = 0
+    while i < len(cur) - 1:
+        cand = cur[:i] + cur[i + 1:]
+        rc, out, _ = run_case(ctx, exe, cand)
+        try:
+            bad = sim_monitor(cand, meta, out) if rc == 0 else None
+        except Exception:
+            bad = None
+        if bad and bad[0] == sig:
+            cur = cand
+        else:
+            i += 1
+    return cur
+
+
+def one(ctx, exe, prog, meta, diff=True):
+    """returns False when the run must stop"""
+    rc, out, err = run_case(ctx, exe, prog)
+    ctx.count()
+    if rc != 0:
+        ctx.violation("sim-crash", f"C07 simulator exited {rc}: {err[-700:]}", {"mode": "sim", "prog": prog, "drained": sorted(meta["drained"])})
+        return False
+    try:
+        bad = sim_monitor(prog, meta, out)
+    except Exception as e:
+        bad = ("sim-log-unreadable", f"monitor could not read the log: {e!r}")
+    if bad:
+        sp = shrink(ctx, exe, prog, meta, bad[0])
+        if ctx.violation(bad[0], "C07: " + bad[1], {"mode": "sim", "prog": sp, "drained": sorted(meta["drained"])}):
+            return False
+        return True
+    if diff:
+        d = model_diff(ctx, prog, out)
+        if d:
+            ctx.broken_correspondence("accept/connect/check_before_write model vs simulator", d + f"; program {prog}")
+            return False
+    ctx.validated()
+    deferred = sum(1 for o in out if o.startswith("accept") and " seq=" in o and "r=0" in o) > 0 and any(l.startswith("accept") or l.startswith("drain") for l in prog)
+    bigq = any(o.startswith("ipcafterread") and int(kv(o)["pc"]) > 8 for o in out)
+    failed = any(o.startswith("final") and kv(o)["status"] != "0" for o in out)
+    if deferred or bigq or failed:
+        ctx.nontrivial("S" + hashlib.sha1("\n".join(out).encode()).hexdigest()[:12])
+    for k, v in (("sim_deferred_accept_cases", deferred), ("sim_ipc_queue_gt8_cases", bigq), ("sim_failed_connect_cases", failed),
+                 ("sim_accept4_faults_fired", sum(1 for o in out if o.startswith("accept4 injected")))):
+        ctx.notes[k] = ctx.notes.get(k, 0) + int(v)
+    return True
+
+
+FIXED = [
+    (["wcheck", "end"], set()),
+    (["ipc tpuptpuptpuptpuptpup late", "end"], set()),
+    (["ipc tttttttttt imm", "end"], set()),
+    (["server 0 t4 defer", "raw 0 0", "run 2", "accept 0", "raw 1 0", "raw 2 0", "run 2", "drain 0", "end"], {0}),
+    (["server 0 un defer", "uvc 0 0", "run 2", "accept 0", "uvc 1 0", "run 2", "drain 0", "end"], {0}),
+    (["server 0 t6 imm", "inject 24", "raw 0 0", "raw 1 0", "run 2", "raw 2 0", "run 2", "inject 23", "raw 3 0", "run 2", "raw 4 0", "run 2", "end"], set()),
+    (["badconnect 100 tcp", "badconnect 101 pipe", "badconnect 102 long", "badconnect 103 longnt", "badconnect 104 tcp close", "badconnect 105 pipe close", "run 3", "wcheck", "end"], set()),
+]
+
+
 def run_sim_part(ctx, exe, replay=None, search=False):
-    return 0
+    if replay:
+        one(ctx, exe, replay["prog"], {"drained": set(replay.get("drained", []))})
+        return 1
+    n = 0
+    if search:
+        srng = SplitMix(ctx.seed + 99)
+        for prog, dr in FIXED * 3:
+            n += 1
+            if not one(ctx, exe, prog, {"drained": dr}, diff=False): return n
+        for _ in range(ctx.scale(1500, 6000)):
+            prog, meta = gen_scenario(srng); n += 1
+            if not one(ctx, exe, prog, meta, diff=False) or ctx.violations: break
+        return n
+    for prog, dr in FIXED:
+        n += 1
+        if not one(ctx, exe, prog, {"drained": dr}): return n
+    for _ in range(ctx.scale(120, 4000)):
+        prog, meta = gen_scenario(ctx.rng); n += 1
+        if n <= 3: ctx.sample({"sim_program": prog[:16]})
+        if not one(ctx, exe, prog, meta): break
+    return n
